@@ -899,6 +899,11 @@ def execute_threads(program, ctx, mode):
     simlocks = SimLockModule()
     if hasattr(_za, 'threading'):
         _za.threading = simlocks
+    import zope.interface.interface as _zi
+    if hasattr(_zi, '_dependents_lock'):
+        # a module-level lock created at import time: replaced by a simulator-owned one (a real lock held by a parked
+        # thread would block the thread the scheduler has just released)
+        _zi._dependents_lock = simlocks.Lock()
     from zope.interface import Interface, implementedBy, classImplements, classImplementsOnly
     from zope.interface.interface import InterfaceClass
     from zope.interface.adapter import AdapterRegistry, VerifyingAdapterRegistry
@@ -1109,6 +1114,20 @@ def execute_threads(program, ctx, mode):
             ctx.state(cfg, flav, ENTRIES[key['e']], b - a)
             if b > a:
                 ctx.probe('lookup-overlapped-mutation')
+            if not any(r == x for x in allowed) and b - a >= 2:
+                # several mutations overlap this one lookup.  The statement speaks of *a* mutation ("correct either before or
+                # after the mutation"); applied to each overlapped mutation on its own that means: every one of them is
+                # either seen or not seen by the lookup -- not necessarily a prefix of them (a lookup reads the registry
+                # order first and the registries' contents later, without locks).  Any subset, in the original order, is accepted.
+                base_hist = history + [m for (_i, _r, m) in done_muts[:a]]
+                over = [m for (_i, _r, m) in done_muts[a:b]]
+                for mask in range(1 << len(over)):
+                    sub = [m for j, m in enumerate(over) if mask >> j & 1]
+                    x = twin_answer(base_hist + sub, key)
+                    if r == x:
+                        allowed.append(x)
+                        ctx.probe('answer-explained-by-a-subset-of-the-overlapped-mutations')
+                        break
             if not any(r == x for x in allowed):
                 ctx.violation('C11', 'thread-atomicity', 'C11|threads|%s|answer-not-from-any-overlapped-state|%s' % (cfg, ENTRIES[key['e']]),
                               {'key': key, 'got': repr(r), 'allowed': [repr(x) for x in allowed], 'flavour': flav})
